@@ -210,6 +210,11 @@ def c19_run(ctx: Ctx):
         cases.append({"ident": i, "role": rng.choice(roles), "backend": "c", "usage": "unread", "remove_unused": True})
     for i, r in allpy[:ctx.n(4, 80)]:
         cases.append({"ident": i, "role": r, "backend": "numpy", "usage": "unread", "remove_unused": True})
+    # the result slots of the JAX backend (`_values_<i>`): every function has its own number of slots
+    # (states for rhs / schemes, monitored quantities for monitor_values)
+    for i in range(0, 6):
+        for r in (roles if 1 <= i <= 4 else [rng.choice(roles)]):
+            cases.append({"ident": f"_values_{i}", "role": r, "backend": "jax"})
     # random neutral identifiers: must never be flagged
     used = set()
     for _ in range(ctx.n(6, 60)):
